@@ -75,6 +75,15 @@ class VGen(V):
     kind = "genexp"
 
 
+@dataclass
+class VJsonMethod(V):
+    """Bound method of a JSON node (dict.get)."""
+
+    name: str
+    path: str
+    kind = "jsonmethod"
+
+
 class Site:
     """Symbol table of one verification site (one hook at one use-site type)."""
 
@@ -85,6 +94,13 @@ class Site:
         self.axioms: List[str] = []
         self._strict_slots: List[Tuple[str, str, frozenset]] = []
         self.witness_arrays: Set[str] = set()  # arrays for which an existential witness element [w] is modelled (any()/all())
+        self.typer = None  # PathTyper: JSON tags a strictly valid input can have at a (non-root) node
+        self.pruned: int = 0
+
+    def allowed_tags(self, p: str):
+        if self.typer is None or p == "j":
+            return None
+        return self.typer.tags_at(p)
 
     def sym(self, name: str, sort: str) -> str:
         n = q(name)
@@ -177,6 +193,106 @@ def _strip(x):
     from oracle.metamodel import strip_doc
 
     return strip_doc(x)
+
+
+class PathTyper:
+    """Which metamodel types can stand at a probe-tree path below a value of type tau, and hence which JSON tags a valid
+    input can have there.  Used only to prune forks that are unreachable under the precondition (soundness: a pruned
+    branch contradicts valid_tau(j), strict or not, because undeclared keys are typed 'anything')."""
+
+    def __init__(self, mm: MetaModel, tau: Dict):
+        self.mm = mm
+        self.tau = tau
+        self._types: Dict[str, Optional[List[Dict]]] = {"j": [tau]}
+        self._tags: Dict[str, Optional[Set[int]]] = {}
+        self._v = None
+
+    def _alts(self, t: Dict, depth: int = 0) -> List[Dict]:
+        if depth > 10:
+            return [t]
+        if t["kind"] == "reference" and t["name"] in self.mm.aliases and t["name"] not in ("LSPAny", "LSPObject", "LSPArray"):
+            return self._alts(self.mm.aliases[t["name"]]["type"], depth + 1)
+        if t["kind"] == "or":
+            out: List[Dict] = []
+            for it in t["items"]:
+                out.extend(self._alts(it, depth + 1))
+            return out
+        return [t]
+
+    def types_at(self, p: str) -> Optional[List[Dict]]:
+        """None = anything can be here."""
+        if p in self._types:
+            return self._types[p]
+        # split off the last step
+        if p.endswith("]"):
+            i = p.rindex("[")
+            parent, step = p[:i], p[i + 1 : -1]
+        else:
+            i = p.rindex(".")
+            parent, step = p[:i], p[i:]
+        pt = self.types_at(parent)
+        res: Optional[List[Dict]] = []
+        if pt is None:
+            res = None
+        else:
+            for t in pt:
+                for a in self._alts(t):
+                    k = a["kind"]
+                    if k == "reference" and a["name"] in ("LSPAny", "LSPObject", "LSPArray"):
+                        res = None
+                        break
+                    if step.startswith("."):
+                        key = step[1:]
+                        props = None
+                        if k == "reference" and a["name"] in self.mm.structures:
+                            props = self.mm.flatten(a["name"])
+                        elif k == "literal":
+                            props = a["value"]["properties"]
+                            if not props:
+                                res = None
+                                break
+                        elif k == "and":
+                            props = self.mm.and_props(a)
+                        elif k == "map":
+                            res.append(a["value"])
+                            continue
+                        if props is not None:
+                            hit = [pr["type"] for pr in props if pr["name"] == key]
+                            if hit:
+                                res.extend(hit)
+                            else:
+                                res = None  # undeclared key: only non-strict inputs have it, and then anything goes
+                                break
+                    else:
+                        if k == "array":
+                            res.append(a["element"])
+                        elif k == "tuple":
+                            if step.isdigit() and int(step) < len(a["items"]):
+                                res.append(a["items"][int(step)])
+                            else:
+                                res.extend(a["items"])
+                if res is None:
+                    break
+        self._types[p] = res
+        return res
+
+    def tags_at(self, p: str) -> Optional[Set[int]]:
+        if p in self._tags:
+            return self._tags[p]
+        ts = self.types_at(p)
+        out: Optional[Set[int]]
+        if ts is None or not ts:
+            out = None
+        else:
+            if self._v is None:
+                self._v = Validity(self.mm, Site())
+            out = set()
+            for t in ts:
+                out |= self._v.tags_of(t)
+            if len(out) >= 7:
+                out = None
+        self._tags[p] = out
+        return out
 
 
 class Validity:
@@ -379,7 +495,15 @@ class HookInterp(Interp):
         """Fork on the container class of a JSON node: 'obj' | 'arr' | 'str' | 'scalar'."""
         self._touch(j)
         t = self.site.tag(j.path)
-        k = ctx.choose([Eq(t, "6"), Eq(t, "5"), Eq(t, "4"), Or(Eq(t, "0"), Eq(t, "1"), Eq(t, "2"), Eq(t, "3"))])
+        conds = [Eq(t, "6"), Eq(t, "5"), Eq(t, "4"), Or(Eq(t, "0"), Eq(t, "1"), Eq(t, "2"), Eq(t, "3"))]
+        allowed = self.site.allowed_tags(j.path)
+        if allowed is not None:
+            groups = [{6}, {5}, {4}, {0, 1, 2, 3}]
+            for gi, g in enumerate(groups):
+                if not (g & allowed):
+                    conds[gi] = FALSE  # unreachable for any input valid for the use-site type
+                    self.site.pruned += 1
+        k = ctx.choose(conds)
         return ["obj", "arr", "str", "scalar"][k]
 
     # -- overrides
@@ -430,6 +554,14 @@ class HookInterp(Interp):
                     tags |= {T_NULL}
                 else:
                     pass  # json.loads never yields instances of package classes
+            allowed = self.site.allowed_tags(v.path)
+            if allowed is not None:
+                if allowed <= tags:
+                    ctx.assume(self._tag_in(v, sorted(allowed)))
+                    return True
+                if not (allowed & tags):
+                    ctx.assume(self._tag_in(v, sorted(allowed)))
+                    return False
             return ctx.branch(self._tag_in(v, sorted(tags)))
         if isinstance(v, (VStructured, VJsonMapped)):
             raise Unsupported("isinstance on structured result")
@@ -569,6 +701,21 @@ class HookInterp(Interp):
     def call(self, ctx: Ctx, f: V, args: List[V], kwargs: Dict[str, V]) -> V:
         from pyvc.symex import VExternal
 
+        if isinstance(f, VJsonMethod) and f.name == "get":
+            node = VJson(f.path)
+            kind = self.node_class(ctx, node)
+            if kind != "obj":
+                raise PyRaise("AttributeError", [], f"a JSON {kind} has no method get")
+            if not args or kwargs:
+                raise Unsupported("dict.get signature")
+            k = force(ctx, args[0])
+            if not (isinstance(k, VStr) and smt.is_str_lit(k.t)):
+                raise Unsupported("dict.get with a non-constant key")
+            key = smt.sexpr_to_py(k.t)
+            if ctx.branch(self.site.has(f.path, key)):
+                return VJson(self.site.child(f.path, key))
+            return args[1] if len(args) > 1 else VNone()
+
         if isinstance(f, VExternal):
             # frame condition of a hook: it may call converter.structure and pure builtins only
             self.site.__dict__.setdefault("frame_calls", [])
@@ -688,6 +835,8 @@ class HookInterp(Interp):
         if isinstance(v, VOpaque):
             return VOpaque(f"{v.name}.{name}")
         if isinstance(v, VJson):
+            if name == "get":
+                return VJsonMethod("get", v.path)
             raise PyRaise("AttributeError", [], f"JSON value has no attribute {name}")
         return super().getattr(ctx, v, name)
 
